@@ -39,7 +39,7 @@ def make_case(ctx, rng, weights=None, rules=None, snap_ballots=False, render=Fal
     if tweak is not None:
         opts = tweak(rng, opts)
     if allow_eq and opts['rule'] in ('meek', 'warren') and rng.random() < 0.25:
-        weights = dict(G8=2, G8b=1)
+        weights = dict(G8=1, G8b=1)
     if big is None:
         big = (not ctx.quick) and rng.random() < 0.3
     if opts.get('arithmetic') == 'rational' and opts['rule'] in ('meek', 'warren'):
